@@ -5,7 +5,7 @@ import numpy as np
 
 from symtt.core import scenario
 from symtt import dense as D
-from .common import all_shapes, pick, is_edge, mk_cores, meta_ok
+from .common import free_policy, all_shapes, pick, is_edge, mk_cores, meta_ok
 
 META = {
     'explanation': 'ortho_left / ortho_right / ortho (no truncation), full and partial sweeps for every admissible (start, end): '
@@ -97,8 +97,7 @@ def _sweep(ctx, shape, cplx, which, start, end):
         return
     # ---- symbolic: fresh SVD outputs; processed cores are reshape(U)/reshape(Vh), arguments equal the spec
     from symtt import state, lapack
-    state.reset()
-    lapack.set_policy(lapack.FreePolicy(assume_sorted_spectrum=False))
+    free_policy(ctx)
     cores = mk_cores(ctx, 'a', shape, cplx)
     t = TT(mk_cores(ctx, 'a', shape, cplx))
     if which == 'left':
